@@ -708,6 +708,13 @@ class Gen:
                         return ("field", r.choice(fl), ("var", n))
         if c == 3 and not is_list(t) and t != "V":
             return ("bin", "index", self.expr(("L", t), d - 1), self.small_index())
+        if c == 5 and self.feat("structs") and d >= 2:
+            # a field of a computed (temporary) Kombination: literal, call result, conditional, list element
+            for sn, fields in r.shuffle(list(self.structs)):
+                fl = [f for f, ft, _ in fields if ft == t]
+                if fl:
+                    e = self._gen_S(("S", sn), d - 1)
+                    return ("field", r.choice(fl), e)
         if c == 4 and self.feat("variable") and t != "V":
             vs = self.vars_of("V")
             if vs:
